@@ -17,6 +17,10 @@ def plan(prop, tier):
     shards = [('prog', SEED * 1000 + i, per) for i in range(n)]
     if prop == 'C11':
         shards.append(('deep', 0, 0))
+    if prop == 'C14':
+        # allocation failures under every hook configuration: failure paths release memory too
+        for i in range(4 if q else 16):
+            shards.append(('faultcfg', SEED * 1000 + 500 + i, 1 if q else 6))
     return flavours, shards
 
 
@@ -241,6 +245,18 @@ def run_shard(shard_prop, bins, workdir, tier):
                     'deta 1 0 3', 'chk 1', 'chk 3', 'tn 1', 'cobj 5', 'htrue 5 =7265706c 4', 'deta 5 0 6', 'repa 1 0 4' if o.kids else 'addo 1 =7265706c 4', 'chk 1', 'tn 1', 'print 1 0', 'print 1 1', 'del 3', 'del 5', 'del 1']
             cases.append((i, 'default' if i % 2 else 'custom', ops))
             extra[i] = (o, cs, distinct)
+    elif kind == 'faultcfg':
+        from . import p_fault
+        cid = 0
+        for rep in range(count):
+            for sc in p_fault.scenarios(rng):
+                cfg = CFGS_ALL[cid % len(CFGS_ALL)]
+                c, info = p_fault.build_case(cid, cfg, sc)
+                cases.append(c)
+                extra[cid] = [cfg]
+                p = Prog(); p.ops = c[2]; p.exp = [None] * len(c[2]); p.names = [o.split()[0] for o in c[2]]; p.muts = [''] * len(c[2])
+                progs[cid] = p
+                cid += 1
     elif kind == 'deep':
         cid = 0
         for chain_kind in 'ao':
@@ -332,7 +348,7 @@ def run_shard(shard_prop, bins, workdir, tier):
                     if first:
                         out.count('cfg:' + str(cfgname))
                         out.count('requests_routed', int(kv.get('req', '0')))
-                if cl.end and cl.end.get('live') != '0' and cid % 3 != 0:
+                if cl.end and cl.end.get('live') != '0' and cid % 3 != 0 and kind == 'prog':
                     out.vios.append(Violation(prop, 'C14/leak/end-of-history', '%s blocks live at the end under %s' % (cl.end['live'], names), wit(cl, 0)))
                 if first and cid % 40 == 7 and cl.end:
                     out.sample({'cfgs': names, 'n_ops': len(ops), 'counters': {k: cl.end.get(k) for k in ('req', 'frees', 'wm', 'wr', 'wf', 'hm', 'hf')}})
